@@ -313,10 +313,21 @@ func vLoad(s vService) *ast.Schema {
 	return sc
 }
 
+// vLoaded: the parsed schema of every service, loaded once and handed to every merge of the run (a
+// gateway that is rebuilt, or built for another order of its services, merges the same parsed schemas
+// again: a merge must not write into its inputs)
+var vLoaded map[int]*ast.Schema
+
 func vMergeIn(order []int, svcs []vService, hide bool) (*MergeResult, error) {
 	var inputs []*MergeInput
+	if vLoaded == nil {
+		vLoaded = map[int]*ast.Schema{}
+	}
 	for _, i := range order {
-		inputs = append(inputs, &MergeInput{Schema: vLoad(svcs[i]), URL: "svc" + verifItoa(i)})
+		if vLoaded[i] == nil {
+			vLoaded[i] = vLoad(svcs[i])
+		}
+		inputs = append(inputs, &MergeInput{Schema: vLoaded[i], URL: "svc" + verifItoa(i)})
 	}
 	if hide {
 		var m SanitizeNodeMergerFunc
@@ -609,7 +620,21 @@ func VerifMerge() {
 
 	// ---- C04 ----
 	vKnown04(svcs)
-	tm := base.TypeURLMap
+	// the table of this merge, and the table of a second merge of the same parsed schemas (a gateway
+	// rebuilt over what it had introspected; the order stays: order dependence is C05's subject)
+	again, aerr := vMergeIn(id, svcs, false)
+	verifAssert(aerr == nil, "a set that merged once merges again")
+	tables := []TypeURLMap{base.TypeURLMap}
+	if aerr == nil {
+		tables = append(tables, again.TypeURLMap)
+	}
+	for _, tm := range tables {
+		vCheckRoutes(tm, sc, svcs, S)
+	}
+	verifReach("routing table checked")
+}
+
+func vCheckRoutes(tm TypeURLMap, sc *ast.Schema, svcs []vService, S int) {
 	for _, s := range svcs {
 		if !s.noroot {
 			u, ok := tm.Get("Query", "q"+verifItoa(s.idx))
@@ -661,7 +686,6 @@ func VerifMerge() {
 			verifAssert(ok, "no field of the merged schema is left without a route: "+d.Name+"."+f.Name)
 		}
 	}
-	verifReach("routing table checked")
 }
 
 // ---- recorded findings (classes over the descriptor) ----
